@@ -267,6 +267,14 @@ def _away(x, lo, what):
         raise OutOfDomain(what)
 
 
+def _dom_arctan2(a, b):
+    _away(numpy.hypot(a, b), .1, 'arctan2 near origin')
+    a, b = numpy.broadcast_arrays(a, b)
+    # branch cut: arctan2(+-0, x<0) = +-pi, and the sign of a zero (or of a rounding-size y) is not part of the denoted value
+    if a.size and (numpy.abs(a[b < 0]) < 1e-6).any():
+        raise OutOfDomain('arctan2 on the branch cut')
+
+
 UNARY = {
     # name: (kinds allowed, nutils builder, numpy shadow, domain check, result kind map)
     'neg': ('ifc', lambda ev, a: ev.negative(a), numpy.negative, None),
@@ -478,7 +486,7 @@ BINARY = {
     'greater': ('if', lambda ev, a, b: ev.Greater(a, b), numpy.greater, _dom_cmp, 'b'),
     'less': ('if', lambda ev, a, b: ev.Less(a, b), numpy.less, _dom_cmp, 'b'),
     'equal': ('bifc', lambda ev, a, b: ev.Equal(a, b), numpy.equal, _dom_cmp, 'b'),
-    'arctan2': ('f', lambda ev, a, b: ev.arctan2(a, b), numpy.arctan2, lambda a, b: _away(numpy.hypot(a, b), .1, 'arctan2 near origin'), None),
+    'arctan2': ('f', lambda ev, a, b: ev.arctan2(a, b), numpy.arctan2, _dom_arctan2, None),
 }
 # constructors that do not broadcast scalars themselves
 RAW_BINARY = {'floordiv', 'min', 'max', 'greater', 'less', 'equal'}
